@@ -134,31 +134,39 @@ def structSig : List (Sig × List Mismatch) → Nat → Option Nat → Option (O
         else structSig rest (ix + 1) acc
     | _ => structSig rest (ix + 1) acc
 
+/-- the block errors: skipped when every signature has argument errors; they replace the argument errors when every signature has
+    one, else they fill in for the signatures without argument errors -/
+def sigWithBlocks (sigs : List Sig) (argErrs : List (List Mismatch)) : List (List Mismatch) :=
+  if argErrs.all (fun ae => !ae.isEmpty) then argErrs else
+  let blockArrays := sigAllBlocks sigs 0
+  let bc := (blockArrays.filter fun ae => !ae.isEmpty).length
+  if bc == blockArrays.length then blockArrays
+  else if bc > 0 then (argErrs.zip blockArrays).map fun (ea, ba) => if ea.isEmpty then ba else ea
+  else argErrs
+
+/-- "skip the positional signature" when the one argument is a Struct and exactly one signature in error takes a Struct first -/
+def sigStrip (sigs : List Sig) (args : Ty) (ne : Nat) (errorArrays : List (List Mismatch)) : List (List Mismatch) :=
+  if ne > 1 && argIsOneStruct args then
+    match structSig (sigs.zip errorArrays) 0 none with
+    | some (some ix) => (errorArrays.drop ix).take 1
+    | _ => errorArrays
+  else errorArrays
+
+/-- merge; one mismatch left → it alone, else the listing -/
+def sigFinish (errorArrays : List (List Mismatch)) : SRes :=
+  match mergeDescriptions 0 .count errorArrays.flatten with
+  | .fault k => .fault (.desc k)
+  | .ok [e] => .single e
+  | .ok _ => .listing (errorArrays.map fun ea => ea.map fun e => chopPath e 0)
+
 /-- `describeSignatures(signatures, argsTuple, nil)` -/
 def describeSignatures (sigs : List Sig) (args : Ty) : SRes :=
   match sigAllArgs cfg sfh args sigs 0 with
   | .error k => .fault k
   | .ok argErrs =>
-    let allSet := argErrs.all fun ae => !ae.isEmpty
     let ne := (argErrs.filter fun ae => !ae.isEmpty).length
-    let errorArrays :=
-      if allSet then argErrs else
-        let blockArrays := sigAllBlocks sigs 0
-        let bc := (blockArrays.filter fun ae => !ae.isEmpty).length
-        if bc == blockArrays.length then blockArrays
-        else if bc > 0 then (argErrs.zip blockArrays).map fun (ea, ba) => if ea.isEmpty then ba else ea
-        else argErrs
-    if errorArrays.isEmpty then .empty else
-    let errorArrays :=
-      if ne > 1 && argIsOneStruct args then
-        match structSig (sigs.zip errorArrays) 0 none with
-        | some (some ix) => (errorArrays.drop ix).take 1
-        | _ => errorArrays
-      else errorArrays
-    match mergeDescriptions 0 .count errorArrays.flatten with
-    | .fault k => .fault (.desc k)
-    | .ok [e] => .single e
-    | .ok _ => .listing (errorArrays.map fun ea => ea.map fun e => chopPath e 0)
+    let errorArrays := sigWithBlocks sigs argErrs
+    if errorArrays.isEmpty then .empty else sigFinish (sigStrip sigs args ne errorArrays)
 
 end
 end Pcore.Desc
